@@ -323,6 +323,14 @@ func c11SamLines(c *Ctx) {
 			var recFields [][]string
 			for j := 0; j < nr; j++ {
 				s := genSAM(r)
+				if k.Idx%5 == 0 && r.IntN(2) == 0 { // a line longer than the I/O buffers
+					l := longSize(r)
+					if l > 20000 {
+						l = 4000 + r.IntN(9000)
+					}
+					s.Seq, s.Qual = string(longText(r, l, nil)), string(longText(r, l, nil))
+					k.Count("sam_long_lines", 1)
+				}
 				var b bytes.Buffer
 				s.Write(&b)
 				line := strings.TrimSuffix(b.String(), "\n")
@@ -334,7 +342,7 @@ func c11SamLines(c *Ctx) {
 			text := strings.Join(lines, "\n") + "\n"
 			got, _ := collect(codecByName("samh").seq(strings.NewReader(text)), len(lines)+3)
 			if !sameTrace(got, want) {
-				k.Input("text", text)
+				k.Input("text", describeText([]byte(text)))
 				k.Failf("sam-valid-file", "valid file decoded differently:\n got  %s\n want %s", traceString(got), traceString(want))
 				return
 			}
@@ -360,7 +368,7 @@ func c11SamLines(c *Ctx) {
 					}
 					if !ok {
 						k.Input("corruption", fmt.Sprintf("line %d: %s", li, kinds[ci]))
-						k.Input("text", text)
+						k.Input("text", describeText([]byte(text)))
 						k.Failf("sam-line-isolation", "corrupting line %d (%s) must give exactly one error at item %d and leave the others intact:\n got  %s\n want %s (with ERR at %d)",
 							li, kinds[ci], li, traceString(got), traceString(want), li)
 						return
